@@ -503,6 +503,24 @@ def gen_patch(rng, model, params, world_labels, ids, allow_cf=True, in_data=Fals
         own.append((nm, True))
         lines.append({"label": nm, "temp": True})
     out = {"lines": lines}
+    if params.get("other_sect_p", 0.0) and not in_data and isa != "arm64" and rng.random() < params["other_sect_p"]:
+        # the patch also brings contents for another section (a string, a
+        # table, ...) that its code refers to through a temporary label
+        nm = f"{tpre}d{len(own)}"
+        olines = [{"label": nm, "temp": True}]
+        for _ in range(rng.randint(1, 3)):
+            k = rng.random()
+            if k < 0.4:
+                olines.append({"raw": ".byte " + ", ".join(str(rng.getrandbits(8)) for _ in range(rng.randint(1, 6)))})
+            elif k < 0.6:
+                olines.append({"raw": '.string "o%d"' % rng.randint(0, 99)})
+            elif k < 0.8 and world_labels["all"]:
+                olines.append({"raw": (".quad " if isa == "x64" else ".long ") + rng.choice(world_labels["all"])})
+            else:
+                olines.append({"raw": ".zero %d" % rng.randint(1, 4)})
+        out["other"] = {"sect": rng.choice([".data", ".data", ".mydata"]), "lines": olines}
+        if isa == "x64":
+            lines.append({"v": "lea", "t": nm, "ttemp": True})
     if params.get("constraints_p", 0.0) and not in_data and rng.random() < params["constraints_p"]:
         # the library wraps the patch in an ABI prologue / epilogue
         regs = {"x64": ["rax", "rbx", "rcx", "rdx", "rsi", "rdi", "r8", "r9", "r10", "r11", "r12"], "ia32": ["eax", "ebx", "ecx", "edx", "esi", "edi"], "arm64": ["x0", "x1", "x2", "x9", "x10", "x16", "x19"]}[isa]
